@@ -446,6 +446,28 @@ def gen_graph(rng, nres, resnames, labelled=0.15, permute=0.35, ring=0.3, start=
     return dict(nodes=[nodes[i] for i in order], edges=ledges)
 
 
+def rekey_graph(rng, graph):
+    """the same residue graph under other node keys: an offset, gaps, a permutation of 0..n-1, reversed key order
+    (keys stay integers: the link model keys residues by Nat); resids, names, edge labels untouched"""
+    keys = [k for k, _r, _n in graph["nodes"]]
+    style = rng.choice(["offset", "gaps", "perm", "reversed"])
+    if style == "offset":
+        ren = {k: k + 28 for k in keys}
+    elif style == "gaps":
+        ren = {k: 3 * k + 5 for k in keys}
+    elif style == "perm":
+        new = list(keys)
+        rng.shuffle(new)
+        ren = dict(zip(keys, new))
+    else:
+        ren = {k: max(keys) - k for k in keys}
+    out = dict(graph, nodes=[[ren[k], r, n] for k, r, n in graph["nodes"]],
+               edges=[[ren[u], ren[v], lt] for u, v, lt in graph["edges"]])
+    if "from_itp" in graph:
+        out["from_itp"] = {str(ren[int(k)]): v for k, v in graph["from_itp"].items()}
+    return out
+
+
 def _order_token(kind, delta, rank):
     """prefix of a link atom key for a residue at resid offset `delta` from the reference residue"""
     if kind == "num":
@@ -637,7 +659,14 @@ def gen_case(rng, syntax=None, max_res=7, removal=True, allow_no_resname=False):
     else:
         blocks = gen_blocks(rng, nblocks, syntax, dangling=(syntax == "itp"))
     nres = rng.randint(1, max_res) if rng.random() < 0.1 else rng.randint(2, max_res)
-    graph = gen_graph(rng, nres, [b["name"] for b in blocks], start=rng.choice([1, 1, 1, 3]))
+    if rng.random() < 0.2:
+        # residue names that contain each other (A, AB, ABC): a name must be compared as a whole, never as a prefix
+        nested = ["A", "AB", "ABC", "ABCD"]
+        for block, name in zip(blocks, nested):
+            block["name"] = name
+    graph = gen_graph(rng, nres, [b["name"] for b in blocks], start=rng.choice([1, 1, 1, 3, 7, 28]))
+    if rng.random() < 0.3:
+        graph = rekey_graph(rng, graph)
     case = dict(blocks=blocks, links=[], graph=graph)
     if allow_no_resname:
         case["allow_no_resname"] = True
@@ -651,6 +680,13 @@ def gen_case(rng, syntax=None, max_res=7, removal=True, allow_no_resname=False):
                 if attrs.get("replace", {}).get("atomname", 0) is None:
                     attrs.pop("replace")
         case["links"].append(link)
+    # a link that only relabels a residue type in the written topology: `replace: {resname: …}` on every atom of the block
+    # (the pre-filter, the residue-level match and the atom match keep seeing the names the molecule was mapped with)
+    if rng.random() < 0.08 and syntax != "itp":
+        block = rng.choice(blocks)
+        relabel = dict(atoms=[[a["name"], {"resname": block["name"], "replace": {"resname": block["name"] + "X"}}] for a in block["atoms"]],
+                       ixns=[], edges=[], nonedges=[], patterns=[])
+        case["links"].insert(rng.randint(0, len(case["links"])), relabel)
     # "defined last wins": sometimes repeat a link with other parameters
     if case["links"] and rng.random() < 0.25:
         import copy
